@@ -773,6 +773,8 @@ impl Writeable for NodeToInsert {
         if self.node.is_none() {
             return Ok(());
         }
+        #[cfg(discret_verif)]
+        crate::verif::fault_point("stmt_sync_node")?;
         let node = self.node.as_mut().unwrap();
         node.write(conn, self.index, &self.old_fts_str, &self.node_fts_str)?;
 
@@ -951,6 +953,8 @@ impl NodeDeletionEntry {
         let query = "DELETE FROM _node WHERE room_id=? AND id=?";
         let mut stmt = conn.prepare_cached(query)?;
         for node in nodes {
+            #[cfg(discret_verif)]
+            crate::verif::fault_point("stmt_sync_del_node")?;
             stmt.execute((node.room_id, node.id))?;
             node.write(conn)?;
             daily_log.set_need_update(node.room_id, &node.entity, node.deletion_date);
